@@ -4,7 +4,7 @@ From Coq Require Import ZArith NArith List Bool Lia.
 Import ListNotations.
 From PG Require Import Common.Tactics Model.SymCoreDefs Model.SymCoreOps Model.SymCoreSpec Model.SymCoreC02
      Proofs.SymCoreBase Proofs.SymCoreWF Proofs.SymCoreWFOps Proofs.SymCoreClone Proofs.SymCoreIds Proofs.SymCoreC02Read
-     Proofs.SymCoreC02Frame Proofs.SymCoreC02Prim Proofs.SymCoreC02List Proofs.SymCoreC02Items Proofs.SymCoreC02Dict.
+     Proofs.SymCoreC02Frame Proofs.SymCoreC02Prim Proofs.SymCoreC02List Proofs.SymCoreC02Items Proofs.SymCoreC02Dict Proofs.SymCoreC02Ext.
 From PG Require Model.PyList Model.PyDict.
 Local Open Scope Z_scope.
 
@@ -69,3 +69,116 @@ Proof.
   - split; auto. exists its1; auto 10.
 Qed.
 End Rebind.
+
+(* ======= rebind with several single-key paths on a pg.List: the batch is applied from the highest index to the lowest ============ *)
+(* what one entry {z: v} of the batch does to a plain list: an insertion marker inserts (clamped like list.insert), an index at
+   or past the end appends, an index below -len is an IndexError, anything else replaces *)
+Inductive lw : Type := LWVal (v : pv) | LWIns (v : pv).
+Definition py_lwrite (l : list pv) (z : Z) (w : lw) : list pv + PyList.pyerr :=
+  match w with
+  | LWIns v => inl (PyList.insert l z v)
+  | LWVal v =>
+      if z >=? PyList.len l then inl (l ++ [v])
+      else if z <? - PyList.len l then inr PyList.PyIndexError
+      else inl (PyList.replace_nth (Z.to_nat (if z <? 0 then z + PyList.len l else z)) v l)
+  end.
+(* the writes one after the other; the first error stops the batch and leaves the earlier writes in place *)
+Fixpoint py_lwrites (l : list pv) (ws : list (Z * lw)) : list pv * option PyList.pyerr :=
+  match ws with
+  | [] => (l, None)
+  | (z, w) :: r => match py_lwrite l z w with inl l' => py_lwrites l' r | inr e => (l, Some e) end
+  end.
+(* an entry of the batch as the model sees it: a one-key path and a plain value, possibly inside an insertion marker *)
+Definition entry_ok (pv0 : list key * rvalue) : Prop :=
+  (exists z, fst pv0 = [KI z]) /\ match snd pv0 with RIns v => plain_rv v | v => plain_rv v end.
+Definition entry_w (pv0 : list key * rvalue) : Z * lw :=
+  (match fst pv0 with [KI z] => z | _ => 0 end, match snd pv0 with RIns v => LWIns (prv v) | v => LWVal (prv v) end).
+
+Section ListRebind.
+Variables (q : quirks) (sc : scope) (ps : pos) (tid : N) (pa : option N) (fl : flags).
+
+Lemma lprim_below : forall st its z rv,
+  at_is st ps tid KList pa fl its -> plain_rv rv -> z < - zlen its -> lprim q sc st ps (KI z) rv = (st, PErr EIndex).
+Proof.
+  intros st its z rv R PL LT. unfold lprim. unfold at_is in R. rewrite R.
+  assert (NN : 0 <= zlen its) by (unfold zlen; lia).
+  replace (z >=? zlen its) with false by lia. cbn [andb].
+  rewrite (storable_no_ins _ (plain_storable _ PL)).
+  replace (z <? 0) with true by lia. replace (z >=? - zlen its) with false by lia.
+  replace (z <? zlen its) with true by lia. cbn [andb negb]. replace (z <? 0) with true by lia. reflexivity.
+Qed.
+
+Lemma fix_chains_id_list : forall st its u,
+  WFI st -> at_is st ps tid KList pa fl its -> clean its -> anc_clean st ps -> Forall (fun i => i = tid) u -> fix_chains st u = st.
+Proof.
+  intros st its u W R C A F. unfold fix_chains. induction F; simpl; auto. subst x.
+  rewrite (locate_complete' _ _ _ _ _ _ _ _ W R). rewrite fix_chain_id; auto. apply W.
+  intros pre suf i pa0 pt fl0 its0 ES G. destruct suf.
+  - rewrite app_nil_r in ES. subst pre. unfold at_is in R. rewrite <- surjective_pairing in G. rewrite R in G. inv G. auto.
+  - eapply A; eauto. discriminate.
+Qed.
+
+Lemma rebind_list_loop : forall pvs st its upd st' u e,
+  WFI st -> at_is st ps tid KList pa fl its -> clean its -> anc_clean st ps -> treats_as_sealed sc fl = false ->
+  Forall entry_ok pvs -> Forall (fun i => i = tid) upd ->
+  rebind_loop q sc st ps pvs upd = (st', u, e) ->
+  WFI st' /\ Forall (fun i => i = tid) u /\
+  wrote st ps tid pa fl st' (fst (py_lwrites (evals its) (map entry_w pvs))) /\
+  e = option_map err_of (snd (py_lwrites (evals its) (map entry_w pvs))).
+Proof.
+  induction pvs as [|[path rv] pvs IH]; intros st its upd st' u e W R C A SL F FU E; simpl in E.
+  - inv E. simpl. split; [auto|split; [auto|split; [apply wrote_refl; auto; apply W|auto]]].
+  - inv F. destruct H1 as [[z EZ] PV]. simpl in EZ. cbn [snd] in PV. subst path.
+    rewrite (rebind_one_single q sc ps tid pa fl st its z rv R SL) in E.
+    destruct (lprim q sc st ps (KI z) rv) as [st1 p] eqn:L. cbn [fst snd] in E.
+    assert (OK : rv_ok rv) by (destruct rv; simpl in *; auto using plain_rv_ok; destruct l; auto; contradiction).
+    pose proof (lprim_WFI _ _ _ _ _ _ _ _ W OK L) as W1.
+    simpl map. set (w := snd (entry_w ([KI z], rv))). change (entry_w ([KI z], rv)) with (z, w). cbn [py_lwrites].
+    assert (STEP : match py_lwrite (evals its) z w with
+                   | inl l1 => (p = PNone \/ p = PUpd) /\ wrote st ps tid pa fl st1 l1
+                   | inr e1 => p = PErr (err_of e1) /\ st1 = st
+                   end).
+    { unfold w, entry_w. cbn [fst snd]. destruct rv as [l|l|i|v]; simpl in PV; try contradiction; unfold py_lwrite; rewrite ?len_evals.
+      - destruct (z >=? zlen its) eqn:GE.
+        + destruct (lprim_append q sc st ps tid pa fl its R C A (proj1 W) z (RLeaf l) st1 p (plain_storable (RLeaf l) PV) ltac:(lia) L); auto.
+        + destruct (z <? - zlen its) eqn:LT.
+          * rewrite (lprim_below st its z (RLeaf l) R (PV : plain_rv (RLeaf l)) ltac:(lia)) in L. inv L. auto.
+          * destruct (lprim_replace q sc st ps tid pa fl its R C A (proj1 W) z (RLeaf l) st1 p (PV : plain_rv (RLeaf l)) ltac:(lia) L); auto.
+      - destruct (z >=? zlen its) eqn:GE.
+        + destruct (lprim_append q sc st ps tid pa fl its R C A (proj1 W) z (RLit l) st1 p (plain_storable (RLit l) PV) ltac:(lia) L); auto.
+        + destruct (z <? - zlen its) eqn:LT.
+          * rewrite (lprim_below st its z (RLit l) R (PV : plain_rv (RLit l)) ltac:(lia)) in L. inv L. auto.
+          * destruct (lprim_replace q sc st ps tid pa fl its R C A (proj1 W) z (RLit l) st1 p (PV : plain_rv (RLit l)) ltac:(lia) L); auto.
+      - destruct (lprim_insert q sc st ps tid pa fl its R C A (proj1 W) z v st1 p (plain_storable v PV) L); auto. }
+    destruct (py_lwrite (evals its) z w) as [l1|e1].
+    + destruct STEP as [PP WR]. pose proof WR as (its1 & R1 & C1 & E1 & K1 & A1 & WS1).
+      assert (exists upd', Forall (fun i => i = tid) upd' /\ rebind_loop q sc st1 ps pvs upd' = (st', u, e)).
+      { destruct PP; subst p; eauto. exists (upd ++ [tid]). split; auto. apply Forall_app; auto. }
+      destruct H as (upd' & FU' & E').
+      destruct (IH st1 its1 upd' st' u e W1 R1 C1 A1 SL H2 FU' E') as (W' & FU2 & WR2 & EE).
+      rewrite E1 in WR2, EE. split; [auto|split; [auto|split; [|auto]]].
+      eapply wrote_step; [exact WR|]. intros its1' R1' _ _ _ _. unfold at_is in R1, R1'. rewrite R1 in R1'. inv R1'. exact WR2.
+    + destruct STEP as [PP ES]. subst p st1. inv E. simpl. split; [auto|split; [auto|split; [apply wrote_refl; auto; apply W|auto]]].
+Qed.
+
+(* x.rebind({z1: v1, z2: v2, ...}) on a list: the entries sorted from the highest index down, applied one after the other *)
+Theorem exec_rebind_list_refines : forall st its pvs st' out,
+  WFI st -> at_is st ps tid KList pa fl its -> clean its -> anc_clean st ps -> treats_as_sealed sc fl = false ->
+  Forall entry_ok pvs -> pvs <> [] ->
+  exec q sc st ps tid KList (snd ps) fl its (Rebind pvs) = (st', out) ->
+  WFI st' /\ wrote st ps tid pa fl st' (fst (py_lwrites (evals its) (map entry_w (sort_desc pvs)))) /\
+  out = match snd (py_lwrites (evals its) (map entry_w (sort_desc pvs))) with None => Ok RNone | Some e => Err (err_of e) end.
+Proof.
+  intros st its pvs st' out W R C A SL F NE E. unfold exec in E.
+  destruct pvs as [|pv0 pvs0] eqn:EP; [congruence|]. rewrite <- EP in *. clear EP.
+  assert (E2 : rebind_core q sc st ps KList pvs (notify_on sc) = (st', out)) by (destruct pvs; [congruence|exact E]).
+  clear E. unfold rebind_core in E2.
+  destruct (rebind_loop q sc st ps (sort_desc pvs) []) as [[st1 u] e] eqn:L.
+  destruct (rebind_list_loop (sort_desc pvs) st its [] st1 u e W R C A SL (sort_desc_forall _ _ _ F) ltac:(constructor) L) as (W1 & FU & WR & EE).
+  destruct (snd (py_lwrites (evals its) (map entry_w (sort_desc pvs)))) as [pe|]; simpl in EE; subst e; inv E2; auto.
+  destruct WR as (its1 & R1 & C1 & E1 & K1 & A1 & WS1).
+  destruct (notify_on sc).
+  - rewrite (fix_chains_id_list st1 its1 u W1 R1 C1 A1 FU). split; [auto|split; [exists its1; auto 10|auto]].
+  - split; [auto|split; [exists its1; auto 10|auto]].
+Qed.
+End ListRebind.
